@@ -238,7 +238,7 @@ func runC03(c *Ctx) {
 				okP := false
 				for _, oo := range origins(o.Common().Args[0]) {
 					if lp, isC := oo.(*ssa.Call); isC && calleeName(lp) == "(*ls.DB).LTXPath" {
-						a := lp.Call.Args
+						a := refArgs(lp)
 						okP = vConstInt(0)(a[1]) && vResult(nameIs("(*ls.DB).MaxLTX"), 0)(a[2]) && vResult(nameIs("(*ls.DB).MaxLTX"), 1)(a[3])
 					}
 				}
@@ -311,7 +311,7 @@ func runC03(c *Ctx) {
 		if cp := c.fn(rule, "(*ls.Replica).calcPos"); cp != nil {
 			ok := false
 			for _, call := range callsTo(cp, nameIs("(*ls.Replica).MaxLTXFileInfo")) {
-				if vConstInt(0)(call.Common().Args[2]) {
+				if vConstInt(0)(refArgs(call)[2]) {
 					ok = true
 				}
 			}
@@ -446,7 +446,7 @@ func c03StagingOpen(c *Ctx, fn *ssa.Function, open ssa.CallInstruction, rs Renam
 		case "os.CreateTemp":
 			return true, true, "unique name"
 		case "os.OpenFile", "slot:DB.openLTXFile", "ls.defaultOpenLTXFile":
-			fl, okf := constInt(call.Common().Args[1])
+			fl, okf := constInt(refArgs(call)[1])
 			if !okf {
 				// flags forwarded by a wrapper: decided at the wrapper's callers
 				return false, false, ""
@@ -496,7 +496,7 @@ func createTruncRule(c *Ctx, rule string) {
 	n := 0
 	for _, fn := range c.P.ProdFuncs() {
 		for _, call := range callsTo(fn, nameIs("os.OpenFile")) {
-			fl, ok := constInt(call.Common().Args[1])
+			fl, ok := constInt(refArgs(call)[1])
 			if !ok || fl&oCreate == 0 || fl&(oWronly|oRdwr) == 0 {
 				continue
 			}
